@@ -78,6 +78,18 @@ def replay(ob):
     m = re.match(r"([a-z0-9.=\-]+)\[(.*)\]$", ob.id)
     fam, idx = (m.group(1), m.group(2)) if m else (ob.id, "")
     w = ob.witness or {}
+    if ob.id == "audit":
+        out = []
+        for sg in (2, 14, 62, 88, 98, 139, 166, 178, 194, 198, 214, 221, 225, 227):
+            for r in (replay_info(sg, "info."), replay_primitive(sg), replay_handed(sg) if tabvc.is_sohncke(sg) else {"reproduced": False}):
+                if r.get("reproduced"):
+                    out.append(r)
+            L = _chiral_probe(sg)
+            for l in L[:3]:
+                r = replay_wyckoff_params(sg, l)
+                if r.get("reproduced"):
+                    out.append(r)
+        return {"reproduced": bool(out), "failing_inputs": out[:3]}
     try:
         if fam in ("wy.expr=matrix", "wy.orbit", "wy.integer", "wy.variables", "c08.solve", "c08.tests=orbit"):
             return replay_wyckoff_params(w["sg"], w["letter"])
